@@ -62,7 +62,7 @@ type mMsg struct {
 }
 
 type mStep struct {
-	K   string           `json:"k"` // req | close | event | count | child
+	K   string           `json:"k"`           // req | close | event | count | child
 	S   int              `json:"s,omitempty"` // the session the step belongs to (cases with several sessions)
 	Sub string           `json:"sub,omitempty"`
 	Fs  []common.JFilter `json:"fs,omitempty"`
